@@ -196,6 +196,84 @@ def combine_converse(ctx):
                                   {"kind": "combine", "name": name})
 
 
+def shared_child_scenarios(ctx):
+    """a token shared between a leave_whitespace()/Combine region and an ordinary whitespace-skipping rule (built with the API
+    directly: the surface builder never shares children of in-place configured elements).  Inputs are given as pieces; whitespace
+    is inserted between pieces (a tuple piece is a region that was matched contiguously and is kept atomic)."""
+    import pyparsing as pp
+
+    def sc_and():
+        integer, ident = pp.Word("12"), pp.Word("ab")
+        real = (integer + "." + integer).leave_whitespace()
+        index = ident + "[" + integer + "]"
+        return ident + "=" + (real | index | integer) + ";"
+
+    def sc_mf():
+        integer, ident = pp.Word("12"), pp.Word("ab")
+        tight = pp.Literal("#") + (integer | ident).leave_whitespace()
+        return pp.OneOrMore(pp.Group(tight | (ident + ":" + integer)))
+
+    def sc_combine():
+        integer, ident = pp.Word("12"), pp.Word("ab")
+        real = pp.Combine(integer + "." + integer)
+        return pp.DelimitedList(pp.Group(ident + "(" + (real | integer) + ")"))
+
+    def sc_fwd():
+        integer = pp.Word("12")
+        e = pp.Forward()
+        pair = (integer + "-" + integer).leave_whitespace()
+        e <<= pp.Group("(" + e + ")") | pair | integer
+        return pp.OneOrMore(e + pp.Opt(","))
+
+    def sc_or_each():
+        integer, ident = pp.Word("12"), pp.Word("ab")
+        tight = (ident ^ integer).leave_whitespace()
+        return (pp.Literal("@") + tight) | (ident & integer)
+
+    table = [("shared:and.leave_whitespace", sc_and, [["a", "=", "b", "[", "12", "]", ";"], ["a", "=", ("1.2", "nolead"), ";"], ["a", "=", "12", ";"]]),
+             ("shared:matchfirst.leave_whitespace", sc_mf, [["a", ":", "1", "b", ":", "2"], [("#1",), "b", ":", "1"]]),
+             ("shared:combine", sc_combine, [["a", "(", "1", ")", ",", "b", "(", ("1.2",), ")"]]),
+             ("shared:forward.leave_whitespace", sc_fwd, [["(", "1", ")", ",", ("1-2", "nolead"), ",", "(", "(", "2", ")", ")"]]),
+             ("shared:or.leave_whitespace", sc_or_each, [["a", "1"], ["1", "a"], [("@a",)]])]
+    n = 0
+    for name, mk, inputs in table:
+        e = mk()
+        for pieces in inputs:
+            flat = [p[0] if isinstance(p, tuple) else p for p in pieces]
+            nolead = {i for i, p in enumerate(pieces) if isinstance(p, tuple) and "nolead" in p}      # a leave_whitespace() region does not skip in front of itself
+            s = "".join(flat)
+            base = parse_view(e, s)
+            ctx.case("%s|%r" % (name, s), True, True)
+            if base[0] != "ok":
+                ctx.violation("%s|%r|reject" % (name, s), "%s: the unspaced input %r is not accepted" % (name, s), {"kind": "shared", "name": name})
+                continue
+            for i in range(len(flat) + 1):
+                for w in WS:
+                    s2 = "".join(flat[:i]) + w + "".join(flat[i:])
+                    if i in nolead:
+                        continue
+                    got = parse_view(e, s2)
+                    n += 1
+                    if got != base:
+                        ctx.violation("%s|%r|%d|%r" % (name, s, i, w),
+                                      "%s: inserting %r before piece %d of %r changes the result: %r -> %r" % (name, w, i, flat, base[1:], got[1:] if got[0] == "ok" else got),
+                                      {"kind": "shared", "name": name})
+            # the converse: whitespace inside a region is never skipped
+            for p in pieces:
+                if isinstance(p, tuple):
+                    r = p[0]
+                    for k in range(1, len(r)):
+                        if r[k - 1].isalnum() and r[k].isalnum():
+                            continue
+                        s2 = s.replace(r, r[:k] + " " + r[k:], 1)
+                        got = parse_view(e, s2)
+                        n += 1
+                        if got == base:
+                            ctx.violation("%s|%r|inside" % (name, s), "%s: whitespace inserted inside the region %r of %r was skipped" % (name, r, s),
+                                          {"kind": "shared", "name": name})
+    ctx.stat("shared_child_checks", n)
+
+
 def adjacency_scenarios(ctx):
     """tokens that look at their neighbours are sensitive to REMOVING whitespace between tokens (F-09)"""
     import pyparsing as pp
@@ -237,6 +315,7 @@ def correspond(ctx):
         for s in inputs:
             nchecks += guarded(lambda: metamorphic(ctx, name, e, e_ign, s, {"example": name}), 20.0) or 0
     combine_converse(ctx)
+    shared_child_scenarios(ctx)
     stats = {}
     recs = corr.run_groups(groups, stats=stats)
     ctx.coverage_extra["class_histogram"] = stats.get("classes", {})
@@ -288,6 +367,13 @@ def replay(ctx, obj):
         c2 = vlib.Ctx(PROP, "quick", 0)
         c2.known = {}
         adjacency_scenarios(c2)
+        for v in c2.violations:
+            print(v["what"])
+        return not c2.violations
+    if r.get("kind") == "shared":
+        c2 = vlib.Ctx(PROP, "quick", 0)
+        c2.known = {}
+        shared_child_scenarios(c2)
         for v in c2.violations:
             print(v["what"])
         return not c2.violations
